@@ -9,6 +9,7 @@
 #ifndef CAT_VERIF_MODELS_H
 #define CAT_VERIF_MODELS_H
 #include <stdarg.h>
+#include <stdio.h>    /* before the snprintf macro below, so that the libc declaration stays untouched */
 #include <stddef.h>
 
 #ifndef NATIVE_REPLAY
@@ -40,7 +41,26 @@ void *memchr(const void *s, int c, size_t n)
 
 /* every call in cat.c has the shape snprintf(buf, len, fmt, (uint32_t)val); the proof build maps it
  * to this fixed-arity model (dfcc cannot pass its write set through a variadic call) */
-#define snprintf model_snprintf
+/* dispatch on the number of arguments: the shape used by cat.c goes to the exact model, any other use of
+ * snprintf to a sound over-approximation (arbitrary NUL-terminated text, arbitrary return value) */
+int nondet_model_int(void);
+int model_snprintf_other(char *s, size_t n)
+{
+        size_t i, z;
+        __CPROVER_assert(n == 0 || __CPROVER_w_ok(s, n), "snprintf: n bytes are writable at s");
+        if (n > 0) {
+                for (i = 0; i < n && i < 4096; i++)
+                        s[i] = (char)nondet_model_uchar();
+                z = nondet_model_size();
+                __CPROVER_assume(z < n);
+                s[z] = 0;
+        }
+        return nondet_model_int();
+}
+#define MODEL_SNPRINTF_PICK(_1, _2, _3, _4, _5, _6, _7, _8, NAME, ...) NAME
+#define MODEL_SNPRINTF_1(s, n, fmt, v) model_snprintf((s), (n), (fmt), (v))
+#define MODEL_SNPRINTF_X(s, n, ...) model_snprintf_other((s), (n))
+#define snprintf(s, n, ...) MODEL_SNPRINTF_PICK(__VA_ARGS__, MODEL_SNPRINTF_X, MODEL_SNPRINTF_X, MODEL_SNPRINTF_X, MODEL_SNPRINTF_X, MODEL_SNPRINTF_X, MODEL_SNPRINTF_X, MODEL_SNPRINTF_1, MODEL_SNPRINTF_X)(s, n, __VA_ARGS__)
 int model_snprintf(char *s, size_t n, const char *fmt, unsigned int v)
 {
         char t[16];
